@@ -528,7 +528,11 @@ pub trait GuestMemory {
                         _ => return Err(Error::CallbackOutOfRange),
                     };
                     cur = match cur.overflowing_add(len as GuestUsize) {
-                        (x @ GuestAddress(0), _) | (x, false) => x,
+                        (x, false) => x,
+                        // The region ends exactly at the top of the address space and more bytes
+                        // were asked for: nothing follows the last address, in particular not
+                        // address 0.
+                        (GuestAddress(0), true) => break,
                         (_, true) => return Err(Error::GuestAddressOverflow),
                     };
                 }
